@@ -2,6 +2,7 @@
 //! different patterns; attribute lists whose encoded size sits around and beyond the 16-bit limit.
 //! Record  C <method> <class> <txid hex> <buflen> <fill 0|255|r> <attrs>     attrs: p<type>.<value hex>  m<key hex>  s<key hex>  f
 //! Result  I OK <size> <md5 of the whole buffer afterwards>  |  ERR  |  PANIC
+//! Facts   J tail=<0|1>   (after OK: buffer[size..] is still the pre-filled content)
 use rustun_verif_harness::*;
 use stun_rs::attributes::stun::*;
 use stun_rs::*;
@@ -56,7 +57,12 @@ fn run_case(out: &mut Out, method: u16, class: u8, txid: &[u8; 12], buflen: usiz
     match r {
         Err(()) => out.imp("PANIC"),
         Ok(Err(_)) => out.imp("ERR"),
-        Ok(Ok(n)) => out.imp(&format!("OK {} {:x}", n, md5::compute(&buf))),
+        Ok(Ok(n)) => {
+            out.imp(&format!("OK {} {:x}", n, md5::compute(&buf)));
+            // bytes beyond the returned size: still the pre-filled ones?
+            let before = fill(buflen, f);
+            out.rec(&format!("J tail={}", (n <= buflen && buf[n..] == before[n..]) as u8));
+        }
     }
 }
 fn parse_attrs(s: &str) -> Vec<E> {
